@@ -526,6 +526,7 @@ func c05StartBarrier(cfg verifh.Cfg) (func(op []string) string, func()) {
 		done    chan struct{}
 	}
 	var running []*call // at most one can be inside; kept as a list like the other kinds
+	dead := false        // the lock was seen taken with nobody inside: it never comes back, no point in waiting again
 	launch := func() *call {
 		c := &call{gate: make(chan byte), entered: make(chan struct{}), done: make(chan struct{})}
 		go func() {
@@ -555,6 +556,9 @@ func c05StartBarrier(cfg verifh.Cfg) (func(op []string) string, func()) {
 	step := func(op []string) string {
 		switch op[0] {
 		case "borrow":
+			if dead {
+				return "stuck"
+			}
 			c := launch()
 			select {
 			case <-c.entered:
@@ -569,6 +573,7 @@ func c05StartBarrier(cfg verifh.Cfg) (func(op []string) string, func()) {
 					running = append(running, c)
 					return "ok"
 				case <-time.After(2 * time.Second):
+					dead = true
 					return "stuck"
 				}
 			}
@@ -596,6 +601,9 @@ func c05StartBarrier(cfg verifh.Cfg) (func(op []string) string, func()) {
 			g, iters, pan := p.Int("g", 2), p.Int("iters", 10), p.Int("pan", 0)
 			h := c5.NewHist(0)
 			ga := &c5.Gauge{}
+			if dead {
+				return "stuck"
+			}
 			var wg sync.WaitGroup
 			for gid := 0; gid < g; gid++ {
 				wg.Add(1)
@@ -621,6 +629,7 @@ func c05StartBarrier(cfg verifh.Cfg) (func(op []string) string, func()) {
 				}(gid)
 			}
 			if !c5.WatchdogProgress(h, c5.StuckIdle, c5.StuckAfter, wg.Wait) {
+				dead = true
 				return "stuck"
 			}
 			return c5.RunLine(h, ga, probe())
